@@ -12,7 +12,10 @@ def main():
     show = os.environ.get("B2Z_VERIF_SHOW_PROGRESS") == "1"
     res = {"raised": None}
     try:
-        if what == "explode":
+        if what == "convert":
+            from bio2zarr import vcf2zarr
+            vcf2zarr.convert([src], out, worker_processes=workers, variants_chunk_size=2, show_progress=show)
+        elif what == "explode":
             from bio2zarr import vcf2zarr
             vcf2zarr.explode(out, [src], worker_processes=workers, column_chunk_size=0.0001, show_progress=show)
         elif what == "encode":
@@ -26,6 +29,7 @@ def main():
         res["message"] = str(e)[:200]
     res["elapsed"] = round(time.time() - t0, 2)
     res["finished_marker"] = (out / "metadata.json").exists() if what == "explode" else (out / ".zmetadata").exists()
+    res["output_exists"] = out.exists()
     print("RESULT " + json.dumps(res))
 
 
